@@ -268,15 +268,44 @@ pub fn run_pes(buf: &[u8]) -> Vec<u64> {
     let mut v = vec![];
     match PesHeader::from_bytes(buf) {
         None => v.push(0),
-        Some(h) => { v.push(1); obs_pes_header(&h, buf, &mut v); }
+        Some(h) => {
+            v.push(1); obs_pes_header(&h, buf, &mut v);
+            // answers must not depend on what was asked before (see run_af)
+            let mut again = vec![1]; obs_pes_header(&h, buf, &mut again);
+            let mut rev = vec![1];
+            if let Some(h2) = PesHeader::from_bytes(buf) {
+                if let PesContents::Parsed(Some(q)) = h2.contents() { touch_ppc_rev(&q); }
+                let _ = h2.pes_packet_length(); let _ = h2.stream_id();
+                obs_pes_header(&h2, buf, &mut rev);
+            }
+            return stable(v, again, rev);
+        }
     }
     v
+}
+/// `v` unless asking again (`again`) or asking in the opposite order first (`rev`) answered differently; then that other
+/// answer, marked, so that it differs from the model's
+pub fn stable(v: Vec<u64>, mut again: Vec<u64>, mut rev: Vec<u64>) -> Vec<u64> {
+    if again != v { again.push(777_777); return again; }
+    if rev != v { rev.push(777_778); return rev; }
+    v
+}
+fn touch_ppc_rev(q: &PesParsedContents<'_>) {
+    let _ = q.payload(); let _ = q.pes_extension(); let _ = q.previous_pes_packet_crc(); let _ = q.additional_copy_info();
+    let _ = q.dsm_trick_mode(); let _ = q.es_rate(); let _ = q.escr(); let _ = q.pts_dts();
+    let _ = q.original_or_copy(); let _ = q.copyright(); let _ = q.data_alignment_indicator(); let _ = q.pes_priority();
 }
 pub fn run_ppc(buf: &[u8]) -> Vec<u64> {
     let mut v = vec![];
     match PesParsedContents::from_bytes(buf) {
         None => v.push(0),
-        Some(p) => { v.push(1); obs_ppc(&p, buf, &mut v); }
+        Some(p) => {
+            v.push(1); obs_ppc(&p, buf, &mut v);
+            let mut again = vec![1]; obs_ppc(&p, buf, &mut again);
+            let mut rev = vec![1];
+            if let Some(q) = PesParsedContents::from_bytes(buf) { touch_ppc_rev(&q); obs_ppc(&q, buf, &mut rev); }
+            return stable(v, again, rev);
+        }
     }
     v
 }
